@@ -15,5 +15,8 @@ fn main() -> Result<(), Box<dyn std::error::Error>> {
         println!("cargo:rustc-env=CARGO_PKG_VERSION={}", val);
     }
     println!("cargo:rerun-if-env-changed=DELTIO_RELEASE_VERSION");
+
+    // `--cfg deltio_verif` enables the verification hooks in `src/verif.rs`.
+    println!("cargo:rustc-check-cfg=cfg(deltio_verif)");
     Ok(())
 }
